@@ -387,8 +387,8 @@ func (ev *Eval) Contents(t *Term) *Term {
 	if !ok {
 		return t
 	}
-	// the make may belong to an inlined activation: find the activation owning the instruction
-	owner := ev.ownerOf(obj)
+	// the make may belong to an inlined activation
+	owner := ev.ownerOfSerial(t.N)
 	if owner == nil {
 		return t
 	}
@@ -396,28 +396,8 @@ func (ev *Eval) Contents(t *Term) *Term {
 	return owner.containerContents(obj, -1, t.Args[0])
 }
 
-func (ev *Eval) ownerOf(obj ssa.Value) *Eval {
-	in, ok := obj.(ssa.Instruction)
-	if !ok {
-		return nil
-	}
-	root := ev
-	for root.Parent != nil {
-		root = root.Parent
-	}
-	var find func(a *Eval) *Eval
-	find = func(a *Eval) *Eval {
-		if a.Fn == in.Parent() {
-			return a
-		}
-		for _, c := range a.children {
-			if r := find(c); r != nil {
-				return r
-			}
-		}
-		return nil
-	}
-	return find(root)
+func (ev *Eval) ownerOfSerial(n int) *Eval {
+	return ev.E.objOwner[n]
 }
 
 func (ev *Eval) containerContents(obj ssa.Value, n int64, length *Term) *Term {
@@ -561,7 +541,7 @@ func (ev *Eval) Deref(t *Term) *Term {
 	if !ok {
 		return t
 	}
-	owner := ev.ownerOf(obj)
+	owner := ev.ownerOfSerial(t.N)
 	if owner == nil {
 		return t
 	}
